@@ -72,6 +72,9 @@ def _builder(seed):
                 return rng.choice((0, 1, -1, rng.randint(0, 10 ** min(n, 6) - 1), -rng.randint(0, 10 ** min(n, 6) - 1)))
             if isinstance(t, T.Decimal):
                 if t.scale is None:
+                    if rng.random() < 0.35:
+                        # amounts that are equal in value but differ in exponent (or in the sign of zero) recur all the time
+                        return decimal.Decimal(rng.choice(("-10.00", "-10.0", "-10", "0.00", "0.0", "0", "100", "100.00", "1.5", "1.50", "1.500")))
                     for _ in range(20):
                         d = decimal.Decimal(f"{rng.choice(('', '-'))}{rng.randint(0, 999999)}" + ("." + "".join(rng.choice("0123456789") for _ in range(rng.randint(1, 6))) if rng.random() < 0.8 else ""))
                         if "E" not in str(d):
@@ -109,6 +112,10 @@ def instances(C, b, e, rng, n):
         tries += 1
         extra = rng.sample(names, min(len(names), rng.randint(0, 5))) if tries > 1 else []
         mem = tuple(rng.choice(lists) for _ in range(rng.randint(0, 3))) if lists and tries > 1 else ()
+        if tries == 2 and len(lists) >= 2:
+            # members of two kinds interleaved (a kind re-appears after another one): their order is part of the model
+            a_, b_ = rng.sample(lists, 2)
+            mem = (a_, b_, a_)
         try:
             x = b.witness(C, extra, mem)
         except Exception:
